@@ -37,6 +37,7 @@ import DateutilVerif.Proofs.RRuleNthYearly
 import DateutilVerif.Proofs.RRuleNthYM
 import DateutilVerif.Proofs.RRuleEasterYearly
 import DateutilVerif.Proofs.RRuleWeekno
+import DateutilVerif.Proofs.RRuleOrig
 
 namespace C01
 open RRule Cal RRule.Tables
@@ -171,6 +172,19 @@ theorem construct_ValueError (a : Args) :
       construct a = .error .ValueError) :=
   ⟨fun l p hl hp hb => construct_bysetpos_ValueError a l p hl hp hb,
    fun l hf hl hsp hx => construct_byhour_unreachable a l hf hl hsp hx⟩
+
+/-- **the constructor is idempotent on what it records**: `origArgs a r` is the model of
+    `self._original_rule` plus the scalar attributes that `replace()` and `__str__` read (checked
+    against the real object by the `rrule.orig` op); constructing from it gives the same rule, field
+    for field, time set included.  C12 (`replace`) and C13 (`str` round trip) lean on this.  The one
+    excluded input is the literal `bysetpos=()`: stored as `()`, not recorded, rebuilt as `None`. -/
+theorem construct_origArgs (a : Args) (r : Rule) (h : construct a = .ok r) (hsp : a.bysetpos ≠ some []) :
+    construct (origArgs a r) = .ok r := RRule.construct_origArgs a r h hsp
+
+/-- … and that exclusion is real: `bysetpos=()` is not reproduced -/
+example : (do let r ← construct { freq := 3, dtstart := ⟨2000, 1, 1, 0, 0, 0, 0⟩, bysetpos := some [] }
+              let r' ← construct (origArgs { freq := 3, dtstart := ⟨2000, 1, 1, 0, 0, 0, 0⟩, bysetpos := some [] } r)
+              pure (r.bysetpos, r'.bysetpos)) = .ok (some [], none) := by decide +kernel
 
 /-! ### 3. every rule, every fuel: start / until / count, whole seconds -/
 
